@@ -35,7 +35,14 @@ def think(r, zero_p=0.3):
     return r.randint(1, 8) * 0.25
 
 
-def knobs(plan, r, h2_p=0.5, layout_p=0.3):
+def knobs(plan, r, h2_p=0.5, layout_p=0.3, walk_p=0.0):
+    if walk_p and r.chance(walk_p):
+        # engine A': the in-process seeded scheduler picks one enabled actor per step (MC computational model)
+        plan['opts']['mode'] = 'walk'
+        plan['opts']['walk'] = r.choice(['uniform', 'uniform', 'sticky', 'pct1', 'pct2', 'pct3'])
+        plan['opts']['walkseed'] = str(r.randint(1, 2 ** 31))
+        plan['opts']['maxsteps'] = '3000'
+        return
     if r.chance(h2_p):
         plan['opts']['h2'] = str(r.randint(1, 2 ** 31))
     if r.chance(layout_p):
